@@ -29,6 +29,7 @@ import Mathlib.Algebra.BigOperators.Intervals
 import Mathlib.Algebra.Order.BigOperators.Group.List
 import Mathlib.Algebra.Order.BigOperators.Group.Finset
 import Mathlib.Analysis.SpecialFunctions.Pow.Real
+import Mathlib.Analysis.MeanInequalitiesPow
 import Mathlib.Analysis.SpecialFunctions.Trigonometric.Basic
 import Mathlib.Analysis.SpecialFunctions.Log.Basic
 
@@ -1345,6 +1346,333 @@ theorem backup_before_normalise_loses_volume :
 
 end grainLoad
 
+/-! ## round 5: multi-phase superposition — bounds, one exponent per branch, the mismatched variant -/
+section superpositionBounds
+
+theorem maxOf_nonneg (xs : List ℝ) : 0 ≤ maxOf xs := by
+  induction xs with
+  | nil => exact le_refl _
+  | cons a r ih =>
+    show 0 ≤ (if maxOf r < a then a else maxOf r)
+    split
+    · exact le_trans ih (le_of_lt ‹_›)
+    · exact ih
+
+/-- `maxOf` is an upper bound of the parts … -/
+theorem le_maxOf (xs : List ℝ) (a : ℝ) (ha : a ∈ xs) : a ≤ maxOf xs := by
+  induction xs with
+  | nil => simp at ha
+  | cons b r ih =>
+    show a ≤ (if maxOf r < b then b else maxOf r)
+    rcases List.mem_cons.mp ha with rfl | h
+    · split
+      · exact le_refl _
+      · exact not_lt.mp ‹_›
+    · split
+      · exact le_trans (ih h) (le_of_lt ‹_›)
+      · exact ih h
+
+/-- … and is one of them (or 0 when every part is ≤ 0 / there is none): it is the strongest part -/
+theorem maxOf_mem (xs : List ℝ) : maxOf xs = 0 ∨ maxOf xs ∈ xs := by
+  induction xs with
+  | nil => exact Or.inl rfl
+  | cons b r ih =>
+    show (if maxOf r < b then b else maxOf r) = 0 ∨ (if maxOf r < b then b else maxOf r) ∈ b :: r
+    split
+    · exact Or.inr List.mem_cons_self
+    · rcases ih with h | h
+      · exact Or.inl h
+      · exact Or.inr (List.mem_cons_of_mem _ h)
+
+/-- **superposition ≥ the strongest part** (any exponent n > 0, non-negative parts) -/
+theorem superpose_ge_max (n : ℝ) (hn : 0 < n) (xs : List ℝ) (h : ∀ a ∈ xs, 0 ≤ a) :
+    maxOf xs ≤ superpose rp n xs := by
+  rcases maxOf_mem xs with h0 | hm
+  · rw [h0]; exact superpose_nonneg n xs h
+  · exact superpose_ge_mem n hn xs h _ hm
+
+theorem sum_rpow_le_rpow_sum (n : ℝ) (hn : 1 ≤ n) (xs : List ℝ) (h : ∀ a ∈ xs, 0 ≤ a) :
+    (xs.map (fun a => rp a n)).sum ≤ (xs.sum) ^ n := by
+  induction xs with
+  | nil => simp [Real.zero_rpow (by linarith : n ≠ 0)]
+  | cons a r ih =>
+    have ha : 0 ≤ a := h a List.mem_cons_self
+    have hr : ∀ b ∈ r, 0 ≤ b := fun b hb => h b (List.mem_cons_of_mem _ hb)
+    have hs : 0 ≤ r.sum := List.sum_nonneg hr
+    simp only [List.map_cons, List.sum_cons]
+    have h1 := Real.add_rpow_le_rpow_add ha hs hn
+    have h2 := ih hr
+    unfold rp at h2 ⊢
+    linarith
+
+/-- **superposition ≤ the plain sum** for exponents n ≥ 1 -/
+theorem superpose_le_sum (n : ℝ) (hn : 1 ≤ n) (xs : List ℝ) (h : ∀ a ∈ xs, 0 ≤ a) :
+    superpose rp n xs ≤ xs.sum := by
+  have hpos : 0 < n := by linarith
+  have hs : 0 ≤ xs.sum := List.sum_nonneg h
+  have h1 := sum_rpow_le_rpow_sum n hn xs h
+  have h2 : ((xs.map (fun a => rp a n)).sum) ^ (1 / n) ≤ ((xs.sum) ^ n) ^ (1 / n) :=
+    Real.rpow_le_rpow (sum_rpow_nonneg n xs h) h1 (by positivity)
+  rw [rpow_inv_cancel hs hpos] at h2
+  exact h2
+
+/-- the one-phase case returns that phase's strength -/
+theorem superpose_singleton (n : ℝ) (hn : 0 < n) (a : ℝ) (ha : 0 ≤ a) : superpose rp n [a] = a :=
+  superpose_single n hn a ha
+
+/-- raising ONE part (position i) does not lower the superposition -/
+theorem superpose_mono_one (n : ℝ) (hn : 0 < n) (pre post : List ℝ) (a b : ℝ)
+    (hpre : ∀ x ∈ pre, 0 ≤ x) (hpost : ∀ x ∈ post, 0 ≤ x) (ha : 0 ≤ a) (hab : a ≤ b) :
+    superpose rp n (pre ++ a :: post) ≤ superpose rp n (pre ++ b :: post) := by
+  apply superpose_mono n hn
+  have refl_ : ∀ l : List ℝ, (∀ x ∈ l, 0 ≤ x) → List.Forall₂ (fun a b => 0 ≤ a ∧ a ≤ b) l l := by
+    intro l hl
+    induction l with
+    | nil => exact List.Forall₂.nil
+    | cons x r ih =>
+      exact List.Forall₂.cons ⟨hl x List.mem_cons_self, le_refl _⟩ (ih (fun y hy => hl y (List.mem_cons_of_mem _ hy)))
+  exact List.rel_append (refl_ pre hpre) (List.Forall₂.cons ⟨ha, hab⟩ (refl_ post hpost))
+
+/-- the same exponent for the sum and the root IS the superposition -/
+theorem superposeWith_same (pw : ℝ → ℝ → ℝ) (p : ℝ) (xs : List ℝ) : superposeWith pw p p xs = superpose pw p xs := rfl
+
+/-- **the code uses one exponent per branch**: precStrength's row is `precRowWith` with the sum exponent and the
+root exponent equal in the same-regime branch and equal in the mixed branch -/
+theorem precRowWith_code (fin : ℝ → Bool) (pw : ℝ → ℝ → ℝ) (nS nM : ℝ) (phases : List (Combined ℝ)) :
+    precRowWith fin pw nS nS nM nM phases = precRow fin pw nS nM phases := by
+  unfold precRowWith precRow sameRegime weakCount
+  simp only [superposeWith_same, decide_eq_true_eq]
+  split <;> rename_i hc <;> simp [hc]
+
+/-- in every branch the row is a superposition with ONE exponent: `nSame` in the same-regime branch, `nMixed`
+in the mixed branch -/
+theorem precRow_eq_superpose (fin : ℝ → Bool) (pw : ℝ → ℝ → ℝ) (nS nM : ℝ) (phases : List (Combined ℝ)) :
+    precRow fin pw nS nM phases
+      = superpose pw (if sameRegime fin phases then nS else nM) (phases.map (fun c => clean fin c.strength)) := by
+  unfold precRow sameRegime weakCount
+  simp only [decide_eq_true_eq]
+
+theorem cleaned_nonneg (fin : ℝ → Bool) (phases : List (Combined ℝ)) (h : ∀ c ∈ phases, 0 ≤ c.strength) :
+    ∀ a ∈ phases.map (fun c => clean fin c.strength), 0 ≤ a := by
+  intro a ha
+  obtain ⟨d, hd, rfl⟩ := List.mem_map.mp ha
+  exact clean_nonneg fin _ (h d hd)
+
+/-- **multi-phase strength ≥ its strongest phase**, in both branches -/
+theorem precRow_ge_max (fin : ℝ → Bool) (nS nM : ℝ) (hS : 0 < nS) (hMx : 0 < nM) (phases : List (Combined ℝ))
+    (h : ∀ c ∈ phases, 0 ≤ c.strength) :
+    maxOf (phases.map (fun c => clean fin c.strength)) ≤ precRow fin rp nS nM phases := by
+  rw [precRow_eq_superpose]
+  split
+  · exact superpose_ge_max nS hS _ (cleaned_nonneg fin phases h)
+  · exact superpose_ge_max nM hMx _ (cleaned_nonneg fin phases h)
+
+/-- **multi-phase strength ≤ the plain sum of the phase strengths** (exponents ≥ 1), in both branches -/
+theorem precRow_le_sum (fin : ℝ → Bool) (nS nM : ℝ) (hS : 1 ≤ nS) (hMx : 1 ≤ nM) (phases : List (Combined ℝ))
+    (h : ∀ c ∈ phases, 0 ≤ c.strength) :
+    precRow fin rp nS nM phases ≤ (phases.map (fun c => clean fin c.strength)).sum := by
+  rw [precRow_eq_superpose]
+  split
+  · exact superpose_le_sum nS hS _ (cleaned_nonneg fin phases h)
+  · exact superpose_le_sum nM hMx _ (cleaned_nonneg fin phases h)
+
+/-- **one phase**: the row is that phase's strength, whatever its regime flag -/
+theorem precRow_one_phase (fin : ℝ → Bool) (nS nM : ℝ) (hS : 0 < nS) (c : Combined ℝ)
+    (hc : 0 ≤ c.strength) (hf : fin c.strength = true) : precRow fin rp nS nM [c] = c.strength := by
+  rw [precRow_eq_superpose]
+  have hsame : sameRegime fin [c] = true := by
+    unfold sameRegime weakCount
+    by_cases hw : c.weakDominant = true <;> simp [List.filter, hf, hw]
+  rw [hsame]
+  simp only [if_true, List.map_cons, List.map_nil]
+  have : clean fin c.strength = c.strength := by simp [clean, hf]
+  rw [this]
+  exact superpose_single nS hS _ hc
+
+theorem weakCount_same_flags (fin : ℝ → Bool) (ps qs : List (Combined ℝ))
+    (h : List.Forall₂ (fun a b : Combined ℝ => 0 ≤ a.strength ∧ a.strength ≤ b.strength ∧ fin a.strength = true ∧
+      fin b.strength = true ∧ a.weakDominant = b.weakDominant) ps qs) : weakCount fin ps = weakCount fin qs := by
+  unfold weakCount
+  induction h with
+  | nil => rfl
+  | cons hab _ ih =>
+    obtain ⟨_, _, fa, fb, hw⟩ := hab
+    simp only [List.filter_cons, fa, fb, hw, Bool.true_and]
+    split
+    · simp only [List.length_cons, ih]
+    · exact ih
+
+theorem cleaned_rel_same_flags (fin : ℝ → Bool) (ps qs : List (Combined ℝ))
+    (h : List.Forall₂ (fun a b : Combined ℝ => 0 ≤ a.strength ∧ a.strength ≤ b.strength ∧ fin a.strength = true ∧
+      fin b.strength = true ∧ a.weakDominant = b.weakDominant) ps qs) :
+    List.Forall₂ (fun a b : ℝ => 0 ≤ a ∧ a ≤ b) (ps.map (fun c => clean fin c.strength))
+      (qs.map (fun c => clean fin c.strength)) := by
+  induction h with
+  | nil => exact List.Forall₂.nil
+  | cons hab _ ih =>
+    obtain ⟨h0, hle, fa, fb, _⟩ := hab
+    simp only [List.map_cons]
+    refine List.Forall₂.cons ?_ ih
+    simp [clean, fa, fb, h0, hle]
+
+/-- **non-decreasing in each phase strength within a regime**: the phases keep their regime flags (and stay
+finite), every strength is raised or kept — the row does not decrease -/
+theorem precRow_mono_same_flags (fin : ℝ → Bool) (nS nM : ℝ) (hS : 0 < nS) (hMx : 0 < nM)
+    (ps qs : List (Combined ℝ))
+    (h : List.Forall₂ (fun a b : Combined ℝ => 0 ≤ a.strength ∧ a.strength ≤ b.strength ∧ fin a.strength = true ∧
+      fin b.strength = true ∧ a.weakDominant = b.weakDominant) ps qs) :
+    precRow fin rp nS nM ps ≤ precRow fin rp nS nM qs := by
+  have hlen : ps.length = qs.length := h.length_eq
+  have hcnt : weakCount fin ps = weakCount fin qs := weakCount_same_flags fin ps qs h
+  have hreg : sameRegime fin ps = sameRegime fin qs := by
+    unfold sameRegime; rw [hcnt, hlen]
+  have hrel := cleaned_rel_same_flags fin ps qs h
+  rw [precRow_eq_superpose, precRow_eq_superpose, hreg]
+  split
+  · exact superpose_mono nS hS _ _ hrel
+  · exact superpose_mono nM hMx _ _ hrel
+
+theorem four_eq : (4:ℝ) = ((4:ℝ) ^ (2:ℝ)) ^ (1 / (2:ℝ)) := (rpow_inv_cancel (by norm_num) (by norm_num)).symm
+
+/-- witness, mismatched exponents: power sum with exponent 1, root with 1/2 — the parts 3 and 4 combine to
+√7 < 4, BELOW the strongest part (with one exponent: ≥ 4 by `superpose_ge_max`) -/
+theorem superposeWith_mismatch_below_strongest :
+    superposeWith rp 1 2 [3, 4] < maxOf [3, 4] ∧ maxOf ([3, 4] : List ℝ) ≤ superpose rp 1 [3, 4] := by
+  have hmax : maxOf ([3, 4] : List ℝ) = 4 := by
+    simp only [maxOf, List.foldr_cons, List.foldr_nil]; norm_num
+  refine ⟨?_, superpose_ge_max 1 (by norm_num) _ (by intro a ha; simp at ha; rcases ha with rfl | rfl <;> norm_num)⟩
+  rw [hmax]
+  simp only [superposeWith, rp, List.map_cons, List.map_nil, List.sum_cons, List.sum_nil, add_zero, Real.rpow_one]
+  rw [four_eq]
+  apply Real.rpow_lt_rpow (by norm_num) _ (by norm_num)
+  rw [Real.rpow_two]; norm_num
+
+/-- witness on the row: a weak-dominated phase (3) next to a cutting-governed phase (4), i.e. the mixed branch;
+with the root of the mixed branch taken with the same-regime exponent (sum exponent 1, root 1/2) the row is
+below its strongest phase, while the code's row (`precRow`) is not -/
+theorem precRowWith_mismatch_below_strongest :
+    let fin : ℝ → Bool := fun _ => true
+    let phases : List (Combined ℝ) := [⟨3, true, 0, 0, 0⟩, ⟨4, false, 0, 0, 0⟩]
+    sameRegime fin phases = false ∧ precRowWith fin rp 2 2 1 2 phases < 4 ∧ 4 ≤ precRow fin rp 2 1 phases := by
+  intro fin phases
+  have hreg : sameRegime fin phases = false := by
+    simp [sameRegime, weakCount, phases, fin, List.filter]
+  refine ⟨hreg, ?_, ?_⟩
+  · unfold precRowWith
+    rw [hreg]
+    have h := superposeWith_mismatch_below_strongest.1
+    have hmax : maxOf ([3, 4] : List ℝ) = 4 := by
+      simp only [maxOf, List.foldr_cons, List.foldr_nil]; norm_num
+    rw [hmax] at h
+    simpa [phases, fin, clean] using h
+  · exact precRow_ge_phase fin 2 1 (by norm_num) (by norm_num) phases
+      (by intro c hc; simp [phases] at hc; rcases hc with rfl | rfl <;> norm_num) ⟨4, false, 0, 0, 0⟩ (by simp [phases]) rfl
+
+end superpositionBounds
+
+/-! ## round 5: the host step with stopping conditions — the coupled update happens for every recorded row -/
+section stopStep
+open KawinV.Coupling
+
+/-- the step: whatever the conditions say, the code's hostPostProcess records the row AND updates the coupled models -/
+theorem postProcess_updates (stopAt : Nat → Bool) (s : PSt) :
+    (hostPostProcess false stopAt s).1 = ⟨s.n + 1, s.upd ++ [s.n + 1]⟩ ∧ (hostPostProcess false stopAt s).2 = stopAt (s.n + 1) := by
+  simp [hostPostProcess]
+
+/-- rows and updates are aligned: the update calls happened at exactly the host indices 1 … n -/
+def Aligned (s : PSt) : Prop := s.upd = List.range' 1 s.n
+
+theorem aligned_postProcess (stopAt : Nat → Bool) (s : PSt) (h : Aligned s) : Aligned (hostPostProcess false stopAt s).1 := by
+  rw [(postProcess_updates stopAt s).1]
+  unfold Aligned at h ⊢
+  simp only
+  rw [h, List.range'_1_concat, Nat.add_comm 1 s.n]
+
+theorem aligned_solveCall (stopAt : Nat → Bool) (fuel : Nat) (s : PSt) (h : Aligned s) :
+    Aligned (solveCall false stopAt fuel s) := by
+  induction fuel generalizing s with
+  | zero => exact h
+  | succ k ih =>
+    unfold solveCall
+    simp only
+    split
+    · exact aligned_postProcess stopAt s h
+    · exact ih _ (aligned_postProcess stopAt s h)
+
+/-- **the final step of a run updates the coupled models**: over any number of solve calls, whatever the stopping
+conditions say at whichever step (ended by a condition, ended by time, called again after a condition was met),
+`updateCoupledModels` ran at exactly the recorded host rows 1 … n — the step that ends a run included -/
+theorem final_step_updates_coupled (stopAt : Nat → Bool) (fuels : List Nat) :
+    (solveCalls false stopAt pinit fuels).upd = List.range' 1 (solveCalls false stopAt pinit fuels).n := by
+  have hgen : ∀ s : PSt, Aligned s → Aligned (solveCalls false stopAt s fuels) := by
+    induction fuels with
+    | nil => intro s hs; exact hs
+    | cons f r ih =>
+      intro s hs
+      exact ih _ (aligned_solveCall stopAt f s hs)
+  exact hgen pinit rfl
+
+/-- one update per recorded row -/
+theorem updates_eq_rows (stopAt : Nat → Bool) (fuels : List Nat) :
+    (solveCalls false stopAt pinit fuels).upd.length = (solveCalls false stopAt pinit fuels).n := by
+  rw [final_step_updates_coupled]; simp
+
+/-- a step whose conditions are met ends the call — and is recorded: a call on a host whose conditions are
+already met is exactly one step -/
+theorem solveCall_stops (early : Bool) (stopAt : Nat → Bool) (fuel : Nat) (s : PSt) (h : stopAt (s.n + 1) = true) :
+    (solveCall early stopAt (fuel + 1) s).n = s.n + 1 := by
+  unfold solveCall
+  cases early <;> simp [hostPostProcess, h]
+
+/-- a call never records more steps than the time span allows -/
+theorem solveCall_le_fuel (early : Bool) (stopAt : Nat → Bool) (fuel : Nat) (s : PSt) :
+    (solveCall early stopAt fuel s).n ≤ s.n + fuel := by
+  induction fuel generalizing s with
+  | zero => exact le_refl _
+  | succ k ih =>
+    unfold solveCall
+    simp only
+    have hn : (hostPostProcess early stopAt s).1.n = s.n + 1 := by
+      unfold hostPostProcess; simp only; split <;> rfl
+    split
+    · rw [hn]; omega
+    · have := ih (hostPostProcess early stopAt s).1
+      rw [hn] at this; omega
+
+/-- **strength history with stopping conditions**: a StrengthModel attached from the start and fed with the rows of
+exactly the host steps at which it was updated has `n + 1` entries for `n` recorded host rows (0 before the first
+step), after any number of solve calls however they ended -/
+theorem strength_history_with_stopping {α : Type} [Zero α] (P : Nat) (ss0 : α) (rowOf : Nat → Strength.Step α)
+    (stopAt : Nat → Bool) (fuels : List Nat) :
+    histLen (runSolve P ss0 none ((solveCalls false stopAt pinit fuels).upd.map rowOf))
+      = if (solveCalls false stopAt pinit fuels).n = 0 then 0 else (solveCalls false stopAt pinit fuels).n + 1 := by
+  have hl := updates_eq_rows stopAt fuels
+  have h := history_length P ss0 [(solveCalls false stopAt pinit fuels).upd.map rowOf]
+  simp only [runSolves, List.foldl_cons, List.foldl_nil, List.map_cons, List.map_nil, List.length_map,
+    List.sum_cons, List.sum_nil, Nat.add_zero, hl] at h
+  exact h
+
+/-- **grain clock with stopping conditions**: the clock of a GrainGrowthModel attached from the start is the sum of
+the durations of ALL recorded host steps = the host clock -/
+theorem grain_clock_with_stopping {α : Type} [AddCommMonoid α] (dt : Nat → α) (c : α) (stopAt : Nat → Bool) (fuels : List Nat) :
+    ggClock dt c ((solveCalls false stopAt pinit fuels).upd.map (fun i => (i, i)))
+      = c + ((List.range' 1 (solveCalls false stopAt pinit fuels).n).map dt).sum := by
+  rw [ggClock_eq, final_step_updates_coupled]
+  simp [List.map_map, Function.comp_def]
+
+/-- witness, the early-return variant: three solve calls (2 steps by time; up to 5 steps, ended by the condition
+`n ≥ 3` at its first step; one more call) record 4 host rows; the variant updates the coupled models at rows 1, 2
+only (strength history 3 entries for 5 host rows, one more missing per later call), the code at all four -/
+theorem early_return_skips_final_update :
+    (solveCalls true (fun n => decide (3 ≤ n)) pinit [2, 5, 1]).n = 4 ∧
+    (solveCalls true (fun n => decide (3 ≤ n)) pinit [2, 5, 1]).upd = [1, 2] ∧
+    (solveCalls false (fun n => decide (3 ≤ n)) pinit [2, 5, 1]).n = 4 ∧
+    (solveCalls false (fun n => decide (3 ≤ n)) pinit [2, 5, 1]).upd = [1, 2, 3, 4] ∧
+    solveTrace true (fun n => decide (3 ≤ n)) pinit [2, 5, 1] = [2, 3, 4] := by
+  decide
+
+end stopStep
+
 /-! ### non-vacuity: concrete instances of the hypothesis sets -/
 
 example : clip (fun _ : ℚ => true) (-3) = 0 ∧ clip (fun _ : ℚ => true) 5 = 5 := by
@@ -1390,5 +1718,20 @@ example : ∀ o ∈ ([.evolve ⟨2, fun _ => 7, fun i => i, fun _ => 1⟩ 5, .re
   intro o ho; simp at ho; rcases ho with h | h | h <;> subst h <;> rfl
 example : moment 3 2 (fun _ => (2:ℚ)) (fun _ => 1) ≠ 0 := by
   norm_num [moment, sumTo, npow, List.range, List.range.loop]
+
+-- round 5: hypotheses of superpose_ge_max / superpose_le_sum / precRow_le_sum (non-negative parts, exponent ≥ 1; one part zero = a phase not yet nucleated)
+example : (∀ a ∈ ([0, 3, 4] : List ℝ), 0 ≤ a) ∧ (1:ℝ) ≤ 1.4 ∧ maxOf ([0, 3, 4] : List ℝ) = 4 := by
+  refine ⟨by intro a ha; simp at ha; rcases ha with rfl | rfl | rfl <;> norm_num, by norm_num, ?_⟩
+  simp only [maxOf, List.foldr_cons, List.foldr_nil]; norm_num
+-- hypotheses of precRow_mono_same_flags: a mixed-regime row, second phase raised, flags kept
+example : List.Forall₂ (fun a b : Combined ℝ => 0 ≤ a.strength ∧ a.strength ≤ b.strength ∧ (fun _ : ℝ => true) a.strength = true ∧
+    (fun _ : ℝ => true) b.strength = true ∧ a.weakDominant = b.weakDominant)
+    [⟨3, true, 0, 0, 0⟩, ⟨4, false, 0, 0, 0⟩] [⟨3, true, 0, 0, 0⟩, ⟨5, false, 0, 0, 0⟩] := by
+  refine List.Forall₂.cons ⟨by norm_num, by norm_num, rfl, rfl, rfl⟩ (List.Forall₂.cons ⟨by norm_num, by norm_num, rfl, rfl, rfl⟩ List.Forall₂.nil)
+-- final_step_updates_coupled on a concrete history: ended by time, ended by the condition, called again
+example : (Coupling.solveCalls false (fun n => decide (3 ≤ n)) Coupling.pinit [2, 5, 1]).upd = List.range' 1 4 := by
+  decide
+-- hypothesis of solveCall_stops: the condition is met at the next row
+example : (fun n => decide (3 ≤ n)) ((⟨2, [1, 2]⟩ : Coupling.PSt).n + 1) = true := by decide
 
 end KawinV.Props.C18
